@@ -59,6 +59,8 @@ func main() {
 			runStress(*out, *seed, *tier)
 		case "gsnode":
 			runGsNode(*out, *seed, *tier)
+		case "statecodec":
+			runStateCodec(*out, *seed, *tier)
 		case "wire":
 			runWire(*out, *seed, *tier)
 		case "crash":
